@@ -40,14 +40,14 @@ def one_history(c, rnd, hid, max_steps):
         tree.populate(rnd.randint(2, 6))
         arch = U.Arch(sb)
         log = tree.log
-        nsteps = min(max_steps, rnd.randint(2, 8))
+        nsteps = min(max_steps, rnd.randint(3, 8))
         before = []
         ops_txt, results = [], []
         for si in range(nsteps):
             if si:
                 tree.evolve()
             # ---- choose the operation
-            kinds = ["C"] if si == 0 else ["A"] * 3 + ["U"] * 5 + ["D"] * 2 + ["C"] + (["N"] if len(arch.parts) == 1 else [])
+            kinds = ["C"] if si == 0 else ["A"] * 4 + ["U"] * 8 + ["D"] * 3 + ["C"] + (["N"] * 2 if len(arch.parts) == 1 else [])
             t = rnd.choice(kinds)
             op = {"t": t}
             fifo = None
